@@ -628,12 +628,15 @@ pub(super) struct PendingAcks {
     largest_ack_eliciting_packet: Option<u64>,
     /// The largest acknowledged packet number sent in an ACK frame
     largest_acked: Option<u64>,
+    /// Whether the packet currently being processed carried an ECN-CE mark
+    congestion_experienced: bool,
 }
 
 impl PendingAcks {
     fn new() -> Self {
         Self {
             immediate_ack_required: false,
+            congestion_experienced: false,
             ack_eliciting_since_last_ack_sent: 0,
             non_ack_eliciting_since_last_ack_sent: 0,
             ack_eliciting_threshold: 1,
@@ -653,6 +656,20 @@ impl PendingAcks {
 
     pub(super) fn set_immediate_ack_required(&mut self) {
         self.immediate_ack_required = true;
+    }
+
+    /// Note that the packet being processed was marked ECN-CE
+    ///
+    /// Such a packet is acknowledged without delay, provided it turns out to be ack-eliciting:
+    /// answering a non-ack-eliciting packet with an ACK-only packet, which is just as likely to be
+    /// marked, would set off an endless exchange of acknowledgements.
+    pub(super) fn congestion_experienced(&mut self) {
+        self.congestion_experienced = true;
+    }
+
+    /// Forget a CE mark noted for a packet that is handled without [`Self::packet_received`]
+    pub(super) fn clear_congestion_experienced(&mut self) {
+        self.congestion_experienced = false;
     }
 
     pub(super) fn on_max_ack_delay_timeout(&mut self) {
@@ -685,10 +702,12 @@ impl PendingAcks {
         ack_eliciting: bool,
         dedup: &Dedup,
     ) -> bool {
+        let congestion_experienced = mem::take(&mut self.congestion_experienced);
         if !ack_eliciting {
             self.non_ack_eliciting_since_last_ack_sent += 1;
             return false;
         }
+        self.immediate_ack_required |= congestion_experienced;
 
         let prev_largest_ack_eliciting = self.largest_ack_eliciting_packet.unwrap_or(0);
 
